@@ -493,7 +493,7 @@ def stepVal (s : St) (ws : List String) (_line : String) : IO St := do
     s ← monitor s "panic" "WriteMessage/ReadMessage panicked on a generated value"
   else if tag == "encerr" then
     s := bump s "val_encerr"
-    if s.kind == "gen" || s.kind == "gen-fit" then
+    if s.kind == "gen" || s.kind == "gen-fit" || s.kind == "gen-addrs" then
       s ← monitor s "valid-value-encode-error" "WriteMessage failed on a well-formed value within the size bound"
   else
     s := { s with nontrivial := s.nontrivial + 1 }
@@ -503,11 +503,11 @@ def stepVal (s : St) (ws : List String) (_line : String) : IO St := do
       s ← monitor s "size-bound" s!"WriteMessage produced {size} bytes for a value (limit 65535)"
     if res.contains "decerr" then
       s := bump s "val_decerr"
-      if s.kind == "gen" || s.kind == "gen-fit" then
+      if s.kind == "gen" || s.kind == "gen-fit" || s.kind == "gen-addrs" then
         s ← monitor s "valid-rejected" s!"encoding of a generated value is rejected: {tag.take 80}"
     else if kvNat? res "rt" != some 1 then
       s := bump s "val_rt0"
-      if s.kind == "gen" || s.kind == "gen-fit" then
+      if s.kind == "gen" || s.kind == "gen-fit" || s.kind == "gen-addrs" then
         s ← monitor s "value-roundtrip" s!"dec(enc v) differs from v: enc={tag.take 80}"
     else
       s := bump s "val_rt1"
